@@ -76,7 +76,10 @@ type Slide struct {
 	Footer    string   `json:"footer,omitempty"`    // type="ftr"
 	Date      string   `json:"date,omitempty"`      // type="dt", text carried by an <a:fld type="datetime1">
 	SlideNum  string   `json:"slide_num,omitempty"` // type="sldNum", text carried by an <a:fld type="slidenum">
-	Notes     *Notes   `json:"notes,omitempty"`
+	// GroupFooters puts the footer, date and slide-number shapes into one group shape (19.3.1.22 grpSp): grouping
+	// changes neither their text nor their placeholder roles.
+	GroupFooters bool   `json:"group_footers,omitempty"`
+	Notes        *Notes `json:"notes,omitempty"`
 
 	// Part is the part name without leading slash; "" = ppt/slides/slide<k>.xml
 	// with k = position in presentation order (1-based).
@@ -215,7 +218,9 @@ func (s Slide) NotesTexts() []string {
 }
 
 func validPart(p string) error {
-	if p == "" || strings.HasPrefix(p, "/") || path.Clean(p) != p || strings.ContainsAny(p, " %\\?#") || !strings.HasSuffix(p, ".xml") {
+	// any extension is a legal part name (OPC 6.2.2): the content type comes from the Override entry written for
+	// every slide part, not from the name
+	if p == "" || strings.HasPrefix(p, "/") || path.Clean(p) != p || strings.ContainsAny(p, " %\\?#") || strings.HasSuffix(p, "/") || path.Ext(p) == "" {
 		return fmt.Errorf("illegal part name %q", p)
 	}
 	return nil
@@ -411,6 +416,11 @@ func slideXML(s Slide) []byte {
 		}
 		sb.WriteString(spClose)
 	}
+	grouped := s.GroupFooters && (s.Footer != "" || s.Date != "" || s.SlideNum != "")
+	if grouped {
+		id := ids.next()
+		fmt.Fprintf(&sb, `<p:grpSp><p:nvGrpSpPr><p:cNvPr id="%d" name="Group %d"/><p:cNvGrpSpPr/><p:nvPr/></p:nvGrpSpPr><p:grpSpPr><a:xfrm><a:off x="0" y="6356350"/><a:ext cx="9144000" cy="365125"/><a:chOff x="0" y="6356350"/><a:chExt cx="9144000" cy="365125"/></a:xfrm></p:grpSpPr>`, id, id-1)
+	}
 	if s.Footer != "" {
 		id := ids.next()
 		spOpen(&sb, id, fmt.Sprintf("Footer Placeholder %d", id-1), `<p:ph type="ftr" sz="quarter" idx="11"/>`, false)
@@ -428,6 +438,9 @@ func slideXML(s Slide) []byte {
 		spOpen(&sb, id, fmt.Sprintf("Slide Number Placeholder %d", id-1), `<p:ph type="sldNum" sz="quarter" idx="12"/>`, false)
 		fieldPara(&sb, "slidenum", s.SlideNum)
 		sb.WriteString(spClose)
+	}
+	if grouped {
+		sb.WriteString(`</p:grpSp>`)
 	}
 	for _, t := range s.Tables {
 		id := ids.next()
